@@ -14,14 +14,15 @@ import (
 // real lookup of a symbolic (key, r >= w) must equal the reference computed on the entries
 // that were flushed (tombstones count as versions).
 // Params: R, T, E, L0T (l0TargetNum), RATIO, RECOVER (1: also query handles rebuilt by
-// recover()), KL2 (leading entries with 2-byte user keys), QKL, MAXTS, WM (0: watermark 0).
+// recover()), KL2 (leading entries with 2-byte user keys), QKL, MAXTS, WM (0: watermark 0),
+// BLK (data block size: 0 = one entry per block; symbolic block sizes are C10's subject).
 func VH_C09() {
 	logger.SetLogger(vlog{})
 	R, T, E := vf.Param("R", 1), vf.Param("T", 2), vf.Param("E", 2)
 	kl2, qkl, maxTs := vf.Param("KL2", 0), vf.Param("QKL", 1), byte(vf.Param("MAXTS", 9))
 	dir := vf.Dir()
 	db := &DB{oracle: newOracle()}
-	lm := &levelManager{dir: dir, l0TargetNum: vf.Param("L0T", 1), ratio: vf.Param("RATIO", 2), dataBlockSize: vf.Int("blk", 0, 64), logger: vlog{}, db: db}
+	lm := &levelManager{dir: dir, l0TargetNum: vf.Param("L0T", 1), ratio: vf.Param("RATIO", 2), dataBlockSize: vf.Param("BLK", 0), logger: vlog{}, db: db}
 	db.manager = lm
 
 	// watermark through the real path: readMark.Done(w), consumed by the watermark goroutine
@@ -40,7 +41,18 @@ func VH_C09() {
 		for t := 0; t < T; t++ {
 			var es []vent
 			var kvs []types.Entry
-			for i := 0; i < E; i++ {
+			ne := E
+			if r > 0 {
+				ne = vf.Param("E2", E)
+			}
+			if es := vf.Param("ES", 0); es > 0 { // per-table entry counts as decimal digits
+				ne = es
+				for k := 0; k < T-1-t; k++ {
+					ne /= 10
+				}
+				ne %= 10
+			}
+			for i := 0; i < ne; i++ {
 				kl := 1
 				if n < kl2 {
 					kl = 2
